@@ -602,11 +602,16 @@ func (p *Process) StartWith(ctx context.Context, element schema.FlowNodeInterfac
 	}
 	switch eventNode := flowNode.(type) {
 	case *startEvent:
-		eventNode.Trigger(ctx)
-
 		// StartAll cease flow monitor
+		//
+		// The monitor has to be subscribed before the start event is
+		// triggered: it learns that the start event fired from the trace
+		// stream, and a trace emitted before the subscription is lost, in
+		// which case completion is never reported.
 		sender := p.tracer.RegisterSender()
-		go p.ceaseFlowMonitor(p.subTracer)(ctx, sender)
+		monitor := p.ceaseFlowMonitor(p.subTracer)
+		eventNode.Trigger(ctx)
+		go monitor(ctx, sender)
 		p.tracer.Send(InstantiationTrace{InstanceId: p.id})
 
 	case *throwEvent:
